@@ -52,7 +52,8 @@ RULE = (
     "OTHER md5 flavour, under sha256, or version-less DVC 2.x rows (CRLF text files are frequent), through an "
     "`ignore` object whose walk() yields every directory exactly once in a generated order (top-down with permuted "
     "siblings, bottom-up, arbitrary permutation of the triples, names inside dirs/files permuted), after "
-    "touch and chmod +x of drawn files, for a drawn sub-directory (direct build vs get_obj), with two "
+    "touch and chmod +x of drawn files, for a drawn sub-directory (direct build vs get_obj, and the same build with "
+    "the sub-directory's path spelled with an inner '/./', a doubled separator, a '/.' suffix or a trailing separator), with two "
     ">1 MiB files in one directory (public parallel path; also 1-3 MiB CRLF texts hashed as md5-dos2unix with a "
     "CR LF across k*2^20 or a NUL block at a 2^20 offset, i.e. files whose per-read legacy digest would change "
     "with the read size) and through _get_hashes(state=None) once with every file sequential and once pooled, "
@@ -1461,6 +1462,17 @@ def run_fs(case, ctx):
             if subdirs and t1 is not None:
                 classes.append("fs:subdir")
                 s_obj, _ = stage(os.path.join(w1, *sp), "subdir", case["jobs"], sub_oid, sub_bytes)
+                # the same sub-directory under another spelling of its path (inner '/./', doubled separator,
+                # '/.' suffix, trailing separator; chosen by the case's subdir number): the walk hands back
+                # normalised roots, the identifier must not depend on the spelling
+                how = ("dot-inside", "double-sep", "dot-suffix", "trailing-sep")[case["subdir"] % 4]
+                parent, leaf = os.path.join(w1, *sp[:-1]), sp[-1]
+                spelled = {"dot-inside": parent + os.sep + "." + os.sep + leaf,
+                           "double-sep": parent + os.sep + os.sep + leaf,
+                           "dot-suffix": os.path.join(parent, leaf) + os.sep + ".",
+                           "trailing-sep": os.path.join(parent, leaf) + os.sep}[how]
+                classes.append("fs:subdir-path-spelled:" + how)
+                stage(spelled, "subdir-spelled-" + how, case["jobs"], sub_oid, sub_bytes, whole=False)
                 for vlabel, v_obj in sorted(view_subs.items()):
                     if s_obj is not None and v_obj is not None and v_obj.hash_info.value != s_obj.hash_info.value:
                         viols.append(Viol(f"fs-subdir-oid-source-dependent:{vlabel}",
